@@ -15,7 +15,7 @@ BOUNDS = {
     'quick': 'sequential placements of a duplicate (same level, nested in itself, in a sibling function that catches, first '
              'occurrence failed, first occurrence cached vs rebuilt, duplicate hidden in a cached subtree that would be reused - holder '
              'a subbuild or a build_file, reused before or after the direct call) '
-             'for build_file paths and for subbuild keys with symbolic integer / float arguments; histories B.M.B.B; and two '
+             'for build_file paths and for subbuild keys with symbolic integer / float arguments (direct call before or after the subbuild holding the nested occurrence); histories B.M.B.B; and two '
              'threads issuing the same build_file path / subbuild key, pre-emption bound up to 3, every library system call and lock '
              'acquire a yield point, first occurrence fresh or served from the cache',
     'thorough': 'pre-emption bound up to 4',
@@ -106,6 +106,11 @@ def harness(eng, fam, P):
         body = [('SB', 'k', {'args': (i,), 'catch': True}, [('Q', 'is_dir', 'o')]),
                 ('SB', 'c', {}, [('SB', 'k', {'args': (j2,), 'catch': True}, [('Q', 'is_dir', 'o')])])]
         pl = 'subbuild-key'
+        if eng.choose('holder_first', 2):
+            # the subtree holding the nested occurrence comes first (and is reused as a whole in the second build), the direct
+            # call of the same key follows it
+            body = body[::-1]
+            pl = 'subbuild-key-holder-first'
     else:
         pl, body = seq_program(eng)
     shared = {}
